@@ -1,8 +1,7 @@
-CONSTANT P = 17
-CONSTANT N = 2
+CONSTANT P = 13
+CONSTANT N = 4
 CONSTANT MUT = "none"
-CONSTANT DIDS = {1, 3}
-CONSTANT BETAS = {2}
+CONSTANT DIDS = {1}
 INIT Init
 NEXT Next
 INVARIANT Theorem
